@@ -615,6 +615,74 @@ def mc_locks(tier, which):
     return tot
 
 
+LOCK_EVENTS = {"getw", "closew", "getr", "closer", "openfail"}
+
+
+def tlc_lock_traces(traces, relaxed):
+    """Validates seam traces against spec/Trace_Locks.tla. Returns (index of the first rejected trace or None, events accepted of it, states)."""
+    cfg = open(os.path.join(core.SPEC, "Trace_Locks.cfg")).read()
+    if relaxed:
+        cfg = cfg.replace("Relaxed = FALSE", "Relaxed = TRUE")
+    nd = "".join(json.dumps({"id": t["id"], "ev": t["ev"]}) + "\n" for t in traces)
+    out, st = core.tlc("Trace_Locks.tla", "Trace_Locks_x.cfg", workers=1, timeout=1200, files={"locktraces.ndjson": nd, "Trace_Locks_x.cfg": cfg})
+    m = re.search(r'"HIGHWATER", (\d+)', out)
+    if not m:
+        raise Infra("Trace_Locks.tla: no high-water mark in TLC's output: " + out[-1500:])
+    if st.get("violation") and st["violation"] not in ("AllAccepted", "postcondition"):
+        raise Infra("Trace_Locks.tla: TLC reports %s: %s" % (st["violation"], out[-1500:]))
+    hw = int(m.group(1))
+    ti, li = hw // 100000, hw % 100000
+    if ti >= len(traces) + 1:
+        return None, 0, st["distinct"]
+    return ti - 1, li - 1, st["distinct"]
+
+
+def lock_traces(rep, prop, res, by_id):
+    """Binding B for Locks.tla: every settled seam trace of a (faulted) call must be a behaviour of the lock programs."""
+    distinct, total, unsettled = {}, 0, 0
+    for bid, r in res.items():
+        for t in r.get("traces") or []:
+            if not t.get("settled"):
+                unsettled += 1
+                continue
+            total += 1
+            key = " ".join(t["ev"])
+            if key not in distinct:
+                distinct[key] = {"id": t["id"], "desc": t["desc"], "ev": t["ev"], "item": bid, "n": 0}
+            distinct[key]["n"] += 1
+    traces = sorted(distinct.values(), key=lambda t: t["id"])
+    stats = {"traces": total, "distinct": len(traces), "events": sum(len(t["ev"]) * t["n"] for t in traces), "unsettled": unsettled, "states": 0}
+    if not traces:
+        return stats
+    # the binding must bite: a call that keeps the drive after a failed write is not a behaviour of the model
+    bad, _, _ = tlc_lock_traces([{"id": "control", "ev": ["getw", "write", "fail-write"]}], False)
+    if bad is None:
+        raise Infra("Trace_Locks.tla accepts a trace that keeps the drive after a failure; the trace binding is vacuous")
+    todo, rejected = list(traces), []
+    for _ in range(12):
+        if not todo:
+            break
+        bad, upto, states = tlc_lock_traces(todo, False)
+        stats["states"] += states
+        if bad is None:
+            break
+        rejected.append((todo[bad], upto))
+        todo = todo[:bad] + todo[bad + 1:]
+    for t, upto in rejected:
+        # is it the acquire/release discipline that the model cannot explain?
+        drive = [e for e in t["ev"] if e in LOCK_EVENTS]
+        bad, upto2, _ = tlc_lock_traces([{"id": t["id"], "ev": drive}], True)
+        where = "%s: seam events %s; the model explains the first %d" % (t["desc"], " ".join(t["ev"]), upto)
+        if bad is not None:
+            rep.violation("the drive acquire/release sequence of a call is not a behaviour of spec/Locks.tla (the drive is kept, released twice or acquired while held): " + where,
+                          {"kind": "fault", "prop": prop, "item": by_id[t["item"]], "trace": t})
+        else:
+            sys.stderr.write("[C10] conformance note (no verdict): Locks.tla does not explain where a failure or drive activity occurs in %s\n" % where)
+    log("[C10] trace validation: %d seam traces (%d distinct, %d events) of fault-free and faulted calls accepted by TLC as behaviours of Locks.tla; %d rejected, %d unsettled"
+        % (total, len(traces), stats["events"], len(rejected), unsettled))
+    return stats
+
+
 STD_HISTORY = [
     {"op": "Mkdir", "p": ["a"], "q": [], "c": "", "k": 0},
     {"op": "WriteFile", "p": ["a", "b"], "q": [], "c": "c2", "k": 0},
@@ -699,7 +767,10 @@ def run_c10(tier, seed, t0, replay_item=None):
         raise Infra("; ".join(infra[:4]))
     for m in infra[:5]:
         log("[C10] skipped: " + m)
+    lt = lock_traces(rep, prop, res, by_id) if replay_item is None or not rep.violations else {"traces": 0, "distinct": 0, "events": 0, "unsettled": 0, "states": 0}
     rep.coverage = {"evaluations": inj, "distinct_nontrivial": len(fired),
+                    "impl_traces_validated_by_tlc": lt["traces"], "impl_trace_events": lt["events"], "distinct_seam_traces": lt["distinct"],
+                    "seam_traces_unsettled": lt["unsettled"],
                     "rule": "for each call (26 fixed call kinds over a standard tree incl. rejected calls, plus calls inside TLC-generated histories) a fault-free run counts the points reached per class (open drive for writing/reading, k-th drive write, k-th drive read, k-th index-store call, k-th source read); then every (quick: a spread of) k is failed once on a fresh instance; the call and the following Mkdir/Stat/List/ReadFile probes must return under a watchdog and the process must survive; distinct = (call kind, fault class) pairs whose fault fired",
                     "samples": samples[:10] or ["none"], "fired": fired, "skipped": len(infra), "tlc_states": mc["distinct"]}
     rep.assumptions = ["faults are injected at the seams the code already has (BackendConfig functions, MetadataPersister interface, write-cache factory); a failing drive write performs a short write first",
